@@ -81,6 +81,9 @@ def random_config(rng, seed, mode=None, nd=None, dtype=None, maxcap=3000, strat=
         # calendar corners of the subdirectory name
         Y, Mo, D = rng.choice([(2000, 2, 29), (2024, 2, 29), (2096, 2, 29), (2100, 2, 28), (2100, 3, 1), (1999, 12, 31), (2024, 3, 1)])
         t_s = calendar.timegm((Y, Mo, D, rng.choice([0, 12, 23]), rng.choice([0, 59]), rng.choice([0, 59])))
+    if rng.random() < 0.08:
+        # file names whose second count changes its number of digits inside the recording (10^9 s = 2001-09-09T01:46:40Z)
+        t_s = 10**9 - rng.randint(0, max(1, (nw - 2) * fc // 1000))
     t0 = t_s * 1000 // fc * fc
     if rng.random() < 0.6:
         # put a subdirectory boundary inside the modelled windows
@@ -227,7 +230,7 @@ class Online:
             r = rng.random()
             if r < self.bad_rate:
                 kinds = ["past", "first-offset-nonzero", "offsets-not-increasing", "indices-not-increasing", "blocks-overlap",
-                         "offset-past-end", "length-mismatch"]
+                         "offset-past-end", "length-mismatch", "negative-index"]
                 if cc.mode != "gapped":
                     pass
                 ch.bad(rng.choice(kinds))
@@ -357,6 +360,15 @@ def run_random(digital_rf, root, rng, seed, name, **kw):
     if os.path.exists(root):
         shutil.rmtree(root)
     os.makedirs(root)
+    top = root
+    st = kw.get("strat")
+    if st is not None and not kw.get("cdriver"):
+        # where the channel lives: a long path (more than 256 characters), a path with a component that starts with `tmp.`
+        if st % 9 == 4:
+            root = os.path.join(root, *["a-directory-name-of-sixty-characters-%02d-%s" % (i, "x" * 20) for i in range(4)])
+        elif st % 9 == 7:
+            root = os.path.join(root, "tmp.Xq3vT9bZ1k", "mytmp.dir")
+        os.makedirs(root, exist_ok=True)
     p1 = cc.params()
     p2 = mismatch_params(rng, p1, MISMATCH_KINDS[seed % len(MISMATCH_KINDS)])   # every kind of mismatch in turn
     if kw.get("cdriver"):
@@ -368,5 +380,6 @@ def run_random(digital_rf, root, rng, seed, name, **kw):
     )
     sc = ch.scenario(name)
     recs = ch.file_records
-    shutil.rmtree(root, ignore_errors=True)
+    ch.kept = []
+    shutil.rmtree(top, ignore_errors=True)
     return sc, recs, cc
